@@ -152,8 +152,8 @@ mircheck("C13", "Exactly one dead letter per failed delivery, none per success",
 
 mircheck("C11", "Identity is unique and stable; is_alive / upgrade tell the truth", SYMEX,
          [m("identity", "3 actors; actor A ended by stop / kill / last drop / on_run Err / handler panic at any moment; a sampler task calling identity() through 10 kinds of handle (clone, weak, weak clone, upgraded, Box<dyn TellHandler/AskHandler/ActorControl> and their as_control / downgrade), is_alive(), ActorWeak::is_alive(), upgrade() and sends at arbitrary points", "same Identity everywhere; is_alive true before any cause, false after the JoinHandle resolved; upgrade/weak is_alive <=> strong senders exist; sends after the end fail"),
-          m("id_alloc", "the atomic operations one real spawn performs on the id counter, recorded symbolically; 2 threads x every interleaving of those operations x symbolic initial counter", "z3 refutes id1 == id2")],
-         "see scenarios", "more than 2 concurrent spawners; counter wrap-around after 2^63 spawns", "trace monitors + a z3 interleaving argument over the recorded atomic operations")
+          m("id_alloc", "2 threads (separate thread-local storage) x K consecutive real spawns each (K = largest prefix <= 70, thorough 140, whose number of interleavings stays <= 3000; K=6 for one atomic operation per spawn, K=70 when the global is touched once per block); every atomic operation on a static recorded symbolically; EVERY merge of the two threads' atomic operations x symbolic initial value (< 2^62) of each static", "z3 refutes 'two of the 2K ids are equal' under the recorded path conditions")],
+         "see scenarios", "more than 2 concurrent spawners; more than K spawns per thread; statics at or above 2^62 (wrap-around); atomic operations other than load/store/fetch_add/fetch_sub on the id state (reported inconclusive)", "trace monitors + a z3 interleaving argument over the recorded atomic operations")
 mircheck("C14", "Deadlock detection is complete for sequential ask cycles", SYMEX,
          [m("deadlock_cycles", "self-ask from a handler / from on_run, 2-cycle (ask and ask_with_timeout), 2-cycle closed from on_stop, 3-cycle; every creation order of the edges the scheduler allows", "the closing ask panics with 'Deadlock detected'; no hook is left waiting at quiescence; every client op completes; graph empty"),
           m("has_path_fn", "every functional graph over 3 (thorough 4) keys: presence and target of each key symbolic, from/to symbolic", "has_path == bounded reachability, as a z3 validity query on every loop path")],
